@@ -200,7 +200,7 @@ def _is_len_plus_one(nf):
 KEEP = [
     # (module, rule substring, key substrings or None)
     ("C03.g IVL-WF", None),
-    ("C03.e PRUNE-FORM", ("max-length", "unknown-mask")),
+    ("C03.e PRUNE-FORM", ("max-length", "unknown-mask", "positional-drop")),
     ("C03.h IGNORE-POINT", None),
     ("C03.c BELLMAN", ("initial-starts",)),
     ("C02.f BACKTRACK", None),
